@@ -166,6 +166,9 @@ def parser_table(ctx, p):
     ctx.need(lps, "line loop")
     lp = max(lps, key=lambda l: len(l["body"]))
     elem = lp["elem"]
+    if any(("adapt", "enumerate") in o for o in lp["iter"]):
+        # `for (index, line) in lines.into_iter().enumerate()`: the line is the second component
+        elem = {e + (("field", 1),) for e in lp["elem"]}
     # mode variable: the local of the enum switched on right after the Some edge
     mode_sw = None
     for bb in sorted(lp["body"]):
@@ -175,6 +178,10 @@ def parser_table(ctx, p):
             break
     ctx.need(mode_sw is not None, "switch on the parser mode")
     mode_local = mode_sw["place"]["local"]
+    mv = p.vars_of_place(mode_sw["place"])
+    if len(mv) == 1 and next(iter(mv))[0][0] == "var" and len(next(iter(mv))) == 1:
+        # `match (&mode, line)`: the value switched on is the variable behind the tuple
+        mode_local = next(iter(mv))[0][1]
     names = p.variant_names(mode_sw["adt"])
     # roles of the three vectors: arguments of Rule::new
     rn = p.calls_to("rule::Rule::new")
@@ -370,6 +377,63 @@ def c14_r3(ctx):
             ctx.ok()
 
 
+def _plus_one_of(p, op):
+    """If operand = X + 1 (checked or not): the operand X; else None."""
+    for o in p.origins_of_operand(op):
+        if o[0][0] == "binop" and o[0][4] in ("AddWithOverflow", "Add"):
+            st = p.blocks[o[0][2]]["stmts"][o[0][3]]["rv"]
+            a, b2 = st["a"], st["b"]
+            if b2["k"] == "const" and b2.get("bits") == "1":
+                return a
+            if a["k"] == "const" and a.get("bits") == "1":
+                return b2
+    return None
+
+
+def _enumerate_line_numbers(ctx, p, lp):
+    """The other way to number lines: `for (index, line) in lines.into_iter().enumerate()` with
+    `index + 1` inside the loop and `lines.len() + 1` after it.  Returns True if the parser is
+    written that way (and judges it); False if it uses a counter variable; raises if neither."""
+    if not any(("adapt", "enumerate") in o for o in lp["iter"]):
+        return False
+    idx_o = {e + (("field", 0),) for e in lp["elem"]}
+    src = {tuple(st for st in o if st[0] not in ("iter", "adapt")) for o in lp["iter"]}
+    good = True
+    n = 0
+    for var in ("UnexpectedEmptyLine", "UnexpectedExtraColon", "UnexpectedEndOfFileMidTargets", "UnexpectedEndOfFileMidSources", "UnexpectedEndOfFileMidCommand"):
+        sites = p.constructs(PERR, var)
+        if not sites:
+            ctx.viol((p.id, "error-kind-missing", var), "ParseError::%s is never produced" % var, p.where(0))
+        for (bb, idx, rv, pl) in sites:
+            ctx.inst(var, p.where(bb, idx))
+            n += 1
+            fo = p.origins_of_operand(rv["ops"][0])
+            if not all(o == (("param", 1),) for o in fo):
+                ctx.viol((p.id, "error-without-file", var), "the error does not name the file", p.where(bb, idx))
+                continue
+            x = _plus_one_of(p, rv["ops"][1])
+            if x is None:
+                raise AnalysisError("idiom not recognised: the line of ParseError::%s is neither a counter variable nor `index + 1` / `len + 1`" % var)
+            xo = p.origins_of_operand(x)
+            if p.dominated_by_edges(bb, {lp["some"]}):
+                if xo == idx_o:
+                    ctx.ok()
+                else:
+                    good = False
+                    ctx.viol((p.id, "error-line-not-this-line", var), "the line reported is not the (1-based) number of the line being read", p.where(bb, idx))
+            else:
+                is_len = xo and all(o[0][0] == "call" and o[0][3].split("::")[-1] == "len" and len(o) == 1 for o in xo)
+                if is_len and all({tuple(st for st in v if st[0] not in ("iter", "adapt")) for v in p.origins_of_operand(p.call_at[o[0][2]].args[0])} == src for o in xo):
+                    ctx.ok()
+                else:
+                    good = False
+                    ctx.viol((p.id, "eof-line-not-count-plus-one", var), "the end-of-input error does not name the line after the last one", p.where(bb, idx))
+    ctx.inst("line numbers from enumerate()", p.where(lp["header"]))
+    if good:
+        ctx.ok()
+    return True
+
+
 @rule("C14.R2", floor=7)
 def c14_r2(ctx):
     """State-machine errors carry file and 1-based line: each non-bundle ParseError is built
@@ -379,6 +443,8 @@ def c14_r2(ctx):
     t = parser_table(ctx, p)
     lp = t["loop"]
     counter = None
+    if _enumerate_line_numbers(ctx, p, lp):
+        return
     for var in ("UnexpectedEmptyLine", "UnexpectedExtraColon", "UnexpectedEndOfFileMidTargets", "UnexpectedEndOfFileMidSources", "UnexpectedEndOfFileMidCommand"):
         sites = p.constructs(PERR, var)
         if not sites:
@@ -545,7 +611,7 @@ def c14_r5(ctx):
                         if is_call(o, "core::slice::<impl [T]>::len") and all(a[0][0] == "param" for a in f.origins_of_operand(f.call_at[o[0][2]].args[0])):
                             return True
             return False
-        e = f.cmp_edges(lambda d: d["op"] == "Eq" and len_zero(d), True) | f.cmp_edges(lambda d: d["op"] == "Ne" and len_zero(d), False)
+        e = f.nonempty_edges(lambda op: bool(f.origins_of_operand(op)) and all(a[0][0] == "param" for a in f.origins_of_operand(op)), False)
         if f.dominated_by_edges(bb, e):
             ctx.ok()
         else:
